@@ -248,8 +248,12 @@ impl RecvWindow {
         self.level -= 1;
         // Unwrap is safe because we are only processing BTP data segments here and they always have a sequence number
         self.ack_seq = unwrap!(hdr.get_seq());
+        if self.ack_level == 0 {
+            // The ACK deadline runs from the oldest segment not acknowledged yet:
+            // later segments must not restart it
+            self.received_at = Instant::now();
+        }
         self.ack_level += 1;
-        self.received_at = Instant::now();
 
         if hdr.is_final() && !payload.is_empty() {
             self.buf_messages_ct += 1;
